@@ -280,6 +280,61 @@ Proof.
   split; [reflexivity|]. exists 0. split; reflexivity.
 Qed.
 
+(* Element.promotePrefixes (run by Binding.get_reply before MultiRef.process),
+   one element against its parent.  Bindings already on the parent are never
+   overwritten ... *)
+Theorem promote_never_overwrites_parent : forall pp todo dn dp dn' dp',
+  promote_decls false pp todo dn dp = (dn', dp') ->
+  forall p u, assoc p dp = Some u -> assoc p dp' = Some u.
+Proof. exact promote_keeps_parent_l. Qed.
+Print Assumptions promote_never_overwrites_parent.
+
+(* ... a declaration that collides with a different binding on the parent stays
+   on the element (nsprefixes is a dict: the snapshot has one entry per prefix) ... *)
+Theorem promote_collision_stays_local : forall pp todo dn dp dn' dp' p u pu,
+  promote_decls false pp todo dn dp = (dn', dp') ->
+  (forall u', In (p, u') todo -> u' = u) ->
+  assoc p dn = Some u -> assoc p dp = Some pu -> pu <> u -> assoc p dn' = Some u.
+Proof. exact promote_collision_stays_l. Qed.
+Print Assumptions promote_collision_stays_local.
+
+(* ... every prefix means at the element what it meant before ... *)
+Theorem promote_keeps_meaning : forall pp dn dp dn' dp',
+  NoDup (map fst dn) -> promote_decls false pp dn dn dp = (dn', dp') ->
+  forall p, means dn' dp' p = means dn dp p.
+Proof. exact promote_keeps_meaning_l. Qed.
+Print Assumptions promote_keeps_meaning.
+
+(* ... and a sibling that reads a prefix bound on the common parent (or on
+   itself) reads the same afterwards. *)
+Theorem promote_keeps_siblings : forall h n q x p u,
+  p_parent (pgetn h n) = Some q -> p_parent (pgetn h x) = Some q -> p_parent (pgetn h q) = None ->
+  x <> n -> x <> q -> q < length h ->
+  (assoc p (p_decls (pgetn h x)) <> None \/ assoc p (p_decls (pgetn h q)) <> None) ->
+  resolves h x p u -> resolves (promote_at false h n) x p u.
+Proof. exact promote_keeps_siblings_l. Qed.
+Print Assumptions promote_keeps_siblings.
+
+(* Body(0)[ r(1) xmlns:q=10, n(2) xmlns:q=XMLSchema ]: Axis style, one spelling
+   for two namespaces on sibling independent elements.  Promoting r then n:
+   the code keeps q = 10 on the Body (r reads 10, n keeps its own binding);
+   the variant with `continue` inside `if pu == u` lets n's declaration fall
+   through and overwrite the Body's: r now reads XMLSchema. *)
+Definition px_heap3 : pheap :=
+  [ mkP None [] [1; 2]; mkP (Some 0) [(1, 10)]%N []; mkP (Some 0) [(1, 2)]%N [] ].
+
+Theorem promote_overwrite_refuted :
+  (resolves (promote_at false (promote_at false px_heap3 1) 2) 1 1 10 /\
+   resolves (promote_at false (promote_at false px_heap3 1) 2) 2 1 2) /\
+  (exists f, resolve f (promote_at true (promote_at true px_heap3 1) 2) 1 1 = Some 2%N) /\
+  (exists dn' dp', promote_decls true None [(1, 2)]%N [(1, 2)]%N [(1, 10)]%N = (dn', dp') /\
+                   assoc 1 [(1, 10)]%N = Some 10%N /\ assoc 1 dp' = Some 2%N).
+Proof.
+  split; [split; [exists 2; reflexivity|exists 1; reflexivity]|].
+  split; [exists 2; reflexivity|]. eexists. eexists. split; [reflexivity|]. split; reflexivity.
+Qed.
+Print Assumptions promote_overwrite_refuted.
+
 (* ------------------------------------------------------------------ *)
 (* non-vacuity and the refutation witness                              *)
 (* ------------------------------------------------------------------ *)
